@@ -18,6 +18,7 @@ CLASS_KEY = {
     "NotEarly": "callback-before-interval",
     "stopped-still-registered": "stop-does-not-remove",
     "registry-entry": "removed-instance-not-registered",
+    "removed-without-request": "stop-removes-unrequested-timer",
 }
 S1_KEY = {
     "stop-after-run-entry": "stop-between-ctx-check-and-callback",
